@@ -13,7 +13,9 @@ CONSTANTS KemSet, KdfSet, AeadSet, ModeSet,
                          \* "leaf" : named leaves of assorted lengths (replay)
           Perturb,       \* set of perturbation kinds offered to the receiver ("none" = matching)
           Twin,          \* TRUE: a second sender "t" with identical parameters and randomness may set up
-          BadPkR,        \* TRUE: X25519 senders are also offered small-order (and other raw) recipient keys
+          BadPkR,        \* "all" | "one" | "none": X25519 senders are also offered small-order (and other raw) recipient keys
+          ShotsOnly,     \* TRUE: no streaming contexts at all, only single-shot calls
+          ShotDl,        \* "msg": single-shot opens get the verbatim message only; "tamper": also modified ones
           Impost,        \* TRUE: after the honest sender, an impostor sender "i" may set up too (C08)
           Shape,         \* "all": every value combination; "one": one combination per (suite, mode)
           Emit,          \* TRUE: print every generated transition (and the key-derivation prologue)
@@ -41,6 +43,10 @@ OtherEncodings == {[i \in 1..32 |-> IF i = 1 THEN 2 ELSE 0], [i \in 1..32 |-> IF
                    [i \in 1..32 |-> IF i = 1 THEN 239 ELSE IF i = 32 THEN 127 ELSE 255],
                    [i \in 1..32 |-> IF i = 1 THEN 3 ELSE IF i = 32 THEN 128 ELSE 0],
                    [i \in 1..32 |-> 255]}
+BadKeys == CASE BadPkR = "all" -> SmallOrderEncodings \cup OtherEncodings
+             [] BadPkR = "one" -> {SmallOrderBase[7]}
+             [] OTHER -> {}
+
 
 SmallStrings == {<<>>, Lit(<<0>>), Lit(<<97>>), Lit(<<97, 0>>), Lit(<<0, 97>>), Lit(<<97, 97>>)}
 LeafStrings(n) == {<<>>, Leaf(n \o "a", 1), Leaf(n \o "b", 32), Leaf(n \o "c", 65)}
@@ -109,6 +115,7 @@ Variant(p, k) ==
                              ELSE {})
       \* X25519: small-order encapsulated key / sender identity key handed to the receiver (C10)
       [] k = "encsmall" -> IF kem = KEM_X25519 THEN {[m EXCEPT !.enc = Lit(e)] : e \in SmallOrderEncodings} ELSE {}
+      [] k = "encsmall1" -> IF kem = KEM_X25519 THEN {[m EXCEPT !.enc = Lit(SmallOrderBase[6])]} ELSE {}
       [] k = "pkssmall" -> IF kem = KEM_X25519 /\ p.mode \in AuthModes
                            THEN {[m EXCEPT !.pkS = Lit(e)] : e \in SmallOrderEncodings} ELSE {}
       \* ... and 32-byte strings that are NOT of small order must be accepted (incl. non-canonical u >= p)
@@ -127,11 +134,11 @@ Impostors(p) ==
 
 \* a second sender with the same parameters and the same randomness (determinism; alloc vs detached)
 MC_SetupSMenu(cx) ==
-    IF "s" \notin DOMAIN cx
+    IF ShotsOnly THEN {}
+    ELSE IF "s" \notin DOMAIN cx
     THEN {[c |-> "s", p |-> p] : p \in SenderParams}
-         \cup (IF BadPkR THEN {[c |-> "s", p |-> [p EXCEPT !.pkR = Lit(e)]] :
-                                  p \in {q \in SenderParams : q.suite[1] = KEM_X25519},
-                                  e \in SmallOrderEncodings \cup OtherEncodings} ELSE {})
+         \cup {[c |-> "s", p |-> [p EXCEPT !.pkR = Lit(e)]] :
+                  p \in {q \in SenderParams : q.suite[1] = KEM_X25519}, e \in BadKeys}
     ELSE IF Twin /\ "t" \notin DOMAIN cx /\ "r" \notin DOMAIN cx
          THEN {[c |-> "t", p |-> cx["s"].origin]}
     ELSE IF Impost /\ "i" \notin DOMAIN cx /\ "r" \notin DOMAIN cx
@@ -162,9 +169,15 @@ NoMenu2(x, y) == {}
 \* single-shot calls (section 6): the same parameters as the streaming sender, one message
 ShotMsgs == {<<PtOfN(0), AadOfN(0)>>, <<PtOfN(1), AadOfN(1)>>}
 MC_ShotSMenu(cx) ==
-    IF "s" \in DOMAIN cx /\ "r" \in DOMAIN cx
-    THEN {[p |-> cx["s"].origin, pt |-> m[1], aad |-> m[2]] : m \in ShotMsgs} ELSE {}
+    (IF "s" \in DOMAIN cx
+     THEN {[p |-> cx["s"].origin, pt |-> m[1], aad |-> m[2]] : m \in ShotMsgs} ELSE {})
+    \cup (IF ShotsOnly THEN {[p |-> p, pt |-> PtOfN(0), aad |-> AadOfN(0)] : p \in SenderParams} ELSE {})
+    \cup (IF DOMAIN cx = {}
+         THEN {[p |-> [p EXCEPT !.pkR = Lit(e)], pt |-> PtOfN(0), aad |-> AadOfN(0)] :
+                  p \in {q \in SenderParams : q.suite[1] = KEM_X25519}, e \in BadKeys}
+         ELSE {})
 ShotDeliveries(i) ==
+    IF ShotDl = "msg" THEN {[k |-> "msg", s |-> "shot", i |-> i, j |-> 0, n |-> 0]} ELSE
     {[k |-> "msg", s |-> "shot", i |-> i, j |-> 0, n |-> 0],
      [k |-> "flipct", s |-> "shot", i |-> i, j |-> 0, n |-> 3],
      [k |-> "fliptag", s |-> "shot", i |-> i, j |-> 0, n |-> 127],
@@ -173,10 +186,10 @@ ShotDeliveries(i) ==
      [k |-> "trunc", s |-> "shot", i |-> i, j |-> 0, n |-> 17],
      [k |-> "extend", s |-> "shot", i |-> i, j |-> 0, n |-> 1],
      [k |-> "emptyaad", s |-> "shot", i |-> i, j |-> 0, n |-> 0]}
-\* opened by the receiver parameters of the live receiver "r" (matching or perturbed)
+\* opened with receiver parameters that match the single-shot sender's, or differ as Perturb says
 MC_ShotRMenu(cx, sh) ==
-    IF "r" \in DOMAIN cx
-    THEN {[p |-> cx["r"].origin, d |-> d] : d \in UNION {ShotDeliveries(i) : i \in 1..Len(sh)}} ELSE {}
+    UNION {{[p |-> v, d |-> d] : v \in UNION {Variant(sh[i].p, k) : k \in Perturb}, d \in ShotDeliveries(i)}
+           : i \in 1..Len(sh)}
 
 (************************** C07 / C08 **************************************)
 SkEOf(p) == GenKeyPair(p.suite[1], p.rng).sk
@@ -213,6 +226,31 @@ PskSound ==
 Rank(op) == CASE op = "init" -> 0 [] op = "setup_s" -> 1 [] op = "setup_r" -> 2 [] op = "seal" -> 3
               [] op = "open" -> 4 [] op = "export" -> 5 [] op = "single_shot_seal" -> 6 [] OTHER -> 7
 InOrder == ~Ordered \/ Rank(last.op) <= Rank(last'.op)
+
+\* C10 / C13: what a failed setup looks like
+SetupFailures ==
+    (last.op \in {"setup_s", "single_shot_seal"} /\ last.kind = "err") => last.err \in {E_ENC, "InvalidPskBundle"}
+SetupFailuresR ==
+    (last.op = "setup_r" /\ last.kind = "err") => last.err \in {E_DEC, "InvalidPskBundle"}
+NoCtxOnFailure ==
+    (last.op \in {"setup_s", "setup_r"} /\ last.kind = "err") => last.c \notin DOMAIN ctx
+SmallOrderRefused ==
+    /\ (last.op \in {"setup_s", "single_shot_seal"} /\ IsSmallOrder(last.plain.suite[1], last.bytes.pk_r))
+          => (last.kind = "err" /\ last.err = E_ENC)
+    /\ (last.op \in {"setup_r", "single_shot_open"} /\ IsSmallOrder(last.plain.suite[1], last.bytes.enc))
+          => (last.kind = "err" /\ last.err = E_DEC)
+    /\ (last.op \in {"setup_r", "single_shot_open"} /\ last.plain.mode \in AuthModes
+          /\ IsSmallOrder(last.plain.suite[1], last.bytes.pk_s)) => (last.kind = "err" /\ last.err = E_DEC)
+\* ... and nothing else is refused: a setup fails only for a small-order key (or a malformed PSK bundle)
+OnlySmallOrderRefused ==
+    (last.op \in {"setup_s", "setup_r"} /\ last.kind = "err" /\ last.err \in {E_ENC, E_DEC}) =>
+        \/ (last.op = "setup_s" /\ IsSmallOrder(last.plain.suite[1], last.bytes.pk_r))
+        \/ (last.op = "setup_r" /\ IsSmallOrder(last.plain.suite[1], last.bytes.enc))
+        \/ (last.op = "setup_r" /\ last.plain.mode \in AuthModes /\ IsSmallOrder(last.plain.suite[1], last.bytes.pk_s))
+CheckSetup ==
+    /\ Assert(SetupFailures', "SetupFailures") /\ Assert(SetupFailuresR', "SetupFailuresR")
+    /\ Assert(NoCtxOnFailure', "NoCtxOnFailure") /\ Assert(SmallOrderRefused', "SmallOrderRefused")
+    /\ Assert(OnlySmallOrderRefused', "OnlySmallOrderRefused")
 
 ASSUME Emit => PrintT(ToJson([prologue |-> {[kem |-> k, pro |-> Prologue(k)] : k \in KemSet}]))
 EmitTr == Emit => PrintT(ToJson(TransitionRecord))
